@@ -27,7 +27,13 @@ func opPrio(args string) string {
 			parts[i] = "p:" + t.ToString()
 		}
 	}
-	return strings.Join(parts, " ")
+	// the model is a pure function: the result must not share storage with the caller's slice
+	// (the binder unwraps keyword arguments in place in what prioritizeArgTs returned)
+	alias := " | fresh"
+	if len(out) > 0 && len(ts) > 0 && &out[0] == &ts[0] {
+		alias = " | ALIASES-THE-CALLERS-SLICE"
+	}
+	return strings.Join(parts, " ") + alias
 }
 
 // pdef name name: ... -> prioritizeDefineArgNames
